@@ -1,6 +1,6 @@
 """C17 - freeze: scope-model agreement with the evaluator, identity rewrite, every child frozen, guarded folds."""
 import re
-from .core import (scope_constructors, CheckError, find_match, arm_region, pat_str, strip_ref, origins, only_when, pat_paths,
+from .core import (try_body_scope, scope_constructors, CheckError, find_match, arm_region, pat_str, strip_ref, origins, only_when, pat_paths,
                    Registry, op_local, bool_switches)
 
 META = {
@@ -112,6 +112,13 @@ def run(F, rep, tier):
             rep.ok('R17.1', 'Expr::%s' % v, 'copies FreezeEnv (%d site)' % (len(direct) + len(inner)))
         else:
             rep.ok('R17.1', 'Expr::%s' % v, 'no scope on either side')
+    ok_t, det_t, loc_t = try_body_scope(F)
+    if ok_t is None:
+        rep.error('R17.1', 'Try: ' + det_t)
+    elif ok_t:
+        rep.ok('R17.1', 'evaluate Expr::Try body scope', det_t)
+    else:
+        rep.viol('R17.1', 'scope|Try|body-in-child-scope', 'evaluation runs the body of `try` in a child scope (%s) while freeze and the documented scoping treat declarations of a try body as declarations of the enclosing scope: a name declared in a try body is invisible afterwards, and frozen code resolves it lazily in the outer scope' % det_t, loc_t)
     want_bind = {'Assign', 'Struct', 'For', 'Switch', 'Try', 'Lambda'}
     for v in sorted(farms):
         regn = fregions[v]
@@ -386,5 +393,31 @@ def run(F, rep, tier):
                 else:
                     rep.ok('R17.7', '%s -> %s' % (w.rsplit('::', 1)[-1], c.target.rsplit('::', 1)[-1]), 'argument is the wrapper\'s own parameter / element')
     rep.floor('R17.7', 'wrapper calls into the freeze family', n7, 8)
+    # ---------------- R17.8
+    rep.rule('R17.8', 'the constant fold of unary minus computes what evaluation computes: freeze folds `-c` with Neg::neg on the number, and the '
+             'one-argument path of the `-` builtin (Minus::run1, and the one-argument arm of Minus::run) negates with the same operation - not '
+             '0 - x, which differs on -0.0')
+    def neg_reach(fn):
+        if not fn or not F.has_fn(fn):
+            return None
+        bodies = [F.body(fn)] + [F.body(c_) for c_ in F.closures_of(fn)]
+        negs = [c for b_ in bodies for c in b_.calls if c.callee.get('tr') == 'std::ops::Neg' and 'NNum' in c.target]
+        return negs
+    fold_neg = [c for c in fb.calls if c.callee.get('tr') == 'std::ops::Neg' and 'NNum' in c.target]
+    mimp = [imp for imp in F.impls_of('core::Builtin') if imp['self_ty'] == 'Minus']
+    if not mimp:
+        rep.error('R17.8', 'impl Builtin for Minus missing')
+    else:
+        r1 = F.impl_fn(mimp[0], 'run1')
+        rr = F.impl_fn(mimp[0], 'run')
+        n1 = neg_reach(r1)
+        nr = neg_reach(rr)
+        delegates = rr and r1 and any(c.target == r1 for c in F.body(rr).calls)
+        if fold_neg and n1 and (nr or delegates):
+            rep.ok('R17.8', 'unary minus', 'fold and evaluation both use <NNum as Neg>::neg')
+        elif not fold_neg:
+            rep.error('R17.8', 'freeze: the negation of the folded constant was not found')
+        else:
+            rep.viol('R17.8', 'Minus|unary|not-neg', 'the one-argument path of the `-` builtin no longer negates with Neg::neg (run1: %s, run: %s) while freeze folds `-c` by true negation: `x / (-0.0)` gives -inf frozen and inf unfrozen' % (bool(n1), bool(nr) or delegates), F.body(r1 or rr).loc(0))
     rep.undecided += ['the frozen program computes the same values as the unfrozen one']
     return META
